@@ -311,6 +311,27 @@ class PropertyRun:
             seen.add(key)
             pyfn = self.real_function(qualname)
             outcome, viol = check_concrete(c, cfg, pyfn, rargs, rkwargs)
+            if not viol and '/frame:' in ob.name:
+                # a store that happens to write the values already there is not observable: the same
+                # call with the contents of the input tensors rotated along the channel axis
+                import copy
+                import torch as _t
+
+                def rot(v, k):
+                    if isinstance(v, _t.Tensor) and v.ndim >= 2 and v.shape[1] > 1:
+                        return _t.roll(v, k, dims=1)
+                    if isinstance(v, (list, tuple)):
+                        return type(v)(rot(x, k) for x in v)
+                    return v
+                for k in (1, 2, 3):
+                    a2 = [rot(x, k) if i == 0 else copy.deepcopy(x) for i, x in enumerate(rargs)]
+                    k2 = copy.deepcopy(rkwargs)
+                    o2, v2 = check_concrete(c, cfg, pyfn, a2, k2)
+                    if v2:
+                        rargs, rkwargs, outcome, viol = a2, k2, o2, v2
+                        info['args'] = to_json(rargs)
+                        info['kwargs'] = to_json(rkwargs)
+                        break
             info['observed'] = outcome[0] if outcome[0] != 'ret' else 'returned'
             info['contract_violations'] = viol
             if viol:
